@@ -143,6 +143,10 @@ def _rm_grid(tier):
                             if mix == MIX2[1] and not rev and d == 2 and d2 == 3:
                                 continue        # trigonometric basis, non-square sigma, non-reversible: 300 s at one snapshot, not finished at two
                             out.append({'rev': rev, 'd': d, 'd2': d2, 'mix': mix, 'm': m, 'reweight': rw})
+    # pure diffusion: an explicit drift array that is identically zero is still the NON-reversible estimator
+    for rw in (False, True):
+        out.append({'rev': False, 'd': 2, 'd2': 2, 'mix': MIX2[0], 'm': 2, 'reweight': rw, 'zero_drift': True})
+        out.append({'rev': False, 'd': 1, 'd2': 2, 'mix': MIX3[0], 'm': 1, 'reweight': rw, 'zero_drift': True})
     return out
 
 
@@ -181,7 +185,7 @@ def _dense_L(ctx, phi, n, x, b, sig, l, d, d2, rev):
 
 @scenario('C19', 'reduced_matrix', _rm_grid)
 @unchanged_inputs('x', 'b', 'sigma')
-def reduced_matrix(ctx, rev, d, d2, mix, m, reweight):
+def reduced_matrix(ctx, rev, d, d2, mix, m, reweight, zero_drift=False):
     """_reduced_matrix_tgedmd with free cores / singular values / right factors == dense projected generator matrix"""
     tg, tdt = ctx.R.tgedmd, ctx.R.transform
     if ctx.mode == 'tv':
@@ -192,6 +196,8 @@ def reduced_matrix(ctx, rev, d, d2, mix, m, reweight):
     ranks = [1] + [2] * (p - 1) + [2, 1]
     x = ctx.input('x', (d, m), False)
     b = ctx.input('b', (d, m), False)
+    if zero_drift:
+        b = ctx.lift(np.zeros((d, m))) if ctx.mode != 'conc' else np.zeros((d, m))
     sig = ctx.input('sigma', (d, d2, m), False)
     u = [ctx.input('u%d' % k, (ranks[k], n[k], ranks[k + 1]), False) for k in range(p)]
     r = ranks[p]
